@@ -104,6 +104,9 @@ func (vc *VC) call(st *State, v *ssa.Call, c *ssa.CallCommon) error {
 	if vc.inlineDepth == 0 { // anchors count the calls written in the function under contract itself
 		vc.callOrd[key]++
 		ord = vc.callOrd[key]
+		if so, ok := vc.srcOrd[c]; ok {
+			ord = so
+		}
 		if err := vc.siteAsserts(st, "call", key, ord, "before", c.Args, nil); err != nil {
 			return err
 		}
